@@ -574,7 +574,7 @@ static void SwitchTo_OLMS40(void) {
     SegInits[SegCode]  = 0;
     Grans[SegData]     = 1;
     ListGrans[SegData] = 1;
-    SegInits[SegCode]  = 0;
+    SegInits[SegData]  = 0;
     if (MomCPU == CPU5840) {
         CodeIntType        = UInt11;
         DataIntType        = UInt7;
